@@ -100,7 +100,10 @@ void __cxa_rethrow(void)
 #endif
 void *_Znwm(unsigned long n) { G2C_NEW_HOOK(n) return __CPROVER_allocate(n, 0); }
 void *_Znam(unsigned long n) { return __CPROVER_allocate(n, 0); }
-void _ZdlPv(void *p) { if (p) __CPROVER_deallocate(p); }
+#ifndef G2C_DELETE_HOOK
+#define G2C_DELETE_HOOK(p)
+#endif
+void _ZdlPv(void *p) { G2C_DELETE_HOOK(p) if (p) __CPROVER_deallocate(p); }
 void _ZdlPvm(void *p, unsigned long n) { (void)n; if (p) __CPROVER_deallocate(p); }
 void _ZdaPv(void *p) { if (p) __CPROVER_deallocate(p); }
 
